@@ -2,7 +2,7 @@
    Model: read_file, read_file_vol (par2/file.go readFile, on the index file and on a recovery file),
    new_decoder, load_parity, parity_array in Model/Par2.v;
    the directory listing of Model/FS.v (literal prefix and suffix). *)
-From Gopar Require Import Proofs.Par1Clean Proofs.Par2Reader2.
+From Gopar Require Import Proofs.Par1Clean Proofs.Par2Reader2 Proofs.Par2Ignore Proofs.Par2LayoutOps.
 From Gopar Require Import Model.Base Model.CRC Model.GoPath Model.FS Model.Par2
      Proofs.Par2Facts Proofs.Par2Verify Proofs.Par2Create Proofs.Par2Layout.
 Open Scope N_scope.
@@ -109,3 +109,57 @@ Theorem C06_blocks_distribution_invariant : forall md5, (forall x, length (md5 x
     parity_array acc1 = parity_array acc2.
 Proof. exact blocks_distribution_invariant. Qed.
 Print Assumptions C06_blocks_distribution_invariant.
+
+(* LIFTED TO THE OPERATIONS.  [same_packet_layouts md5 ix d fs1 ls1 fs2 ls2] (Proofs/Par2LayoutOps.v): two directory
+   states whose index yields the same decoder d, with the same contents at the protected paths, whose recovery
+   files - ANY names accepted by the discovery pattern, any number, any distribution, any order, duplicates,
+   packets of other sets freely different - are frames of well-formed packets containing in total the same
+   packets of the set, without two different blocks for one exponent.  Then Verify returns the same counts and
+   verdict, and Repair the same outcome, the same list of repaired paths and the same content at every path the
+   two states agreed on (in particular every protected path). *)
+Theorem C06_verify_layout_invariant : forall md5, (forall x, length (md5 x) = 16%nat) ->
+  forall ix d fs1 ls1 fs2 ls2, same_packet_layouts md5 ix d fs1 ls1 fs2 ls2 ->
+  fst (par2_verify md5 ix (io_init fs1 [])) = fst (par2_verify md5 ix (io_init fs2 [])).
+Proof. exact verify_layout_invariant. Qed.
+Print Assumptions C06_verify_layout_invariant.
+
+Theorem C06_repair_layout_invariant : forall md5, (forall x, length (md5 x) = 16%nat) ->
+  forall ix d fs1 ls1 fs2 ls2 dbl, same_packet_layouts md5 ix d fs1 ls1 fs2 ls2 ->
+  let r1 := par2_repair md5 ix dbl (io_init fs1 []) in
+  let r2 := par2_repair md5 ix dbl (io_init fs2 []) in
+  fst r1 = fst r2 /\
+  (forall q, read_res fs1 q = read_res fs2 q -> read_res (io_fs (snd r1)) q = read_res (io_fs (snd r2)) q).
+Proof. exact repair_layout_invariant. Qed.
+Print Assumptions C06_repair_layout_invariant.
+
+(* the index file may be permuted / carry duplicated packets too: same decoder *)
+Theorem C06_permuted_index_same_decoder : forall md5, (forall x, length (md5 x) = 16%nat) ->
+  forall ix fs1 fs2 sid p1 l1 p2 l2,
+  Forall wf_pkt (p1 :: l1) -> Forall wf_pkt (p2 :: l2) -> pk_set p1 = sid -> pk_set p2 = sid ->
+  (forall p, In p (p1 :: l1) <-> In p (p2 :: l2)) -> consistent sid (p1 :: l1) ->
+  read_res fs1 ix = Ok (frames md5 (p1 :: l1)) -> read_res fs2 ix = Ok (frames md5 (p2 :: l2)) ->
+  fst (new_decoder md5 ix (io_init fs1 [])) = fst (new_decoder md5 ix (io_init fs2 [])).
+Proof. exact permuted_index_same_decoder. Qed.
+Print Assumptions C06_permuted_index_same_decoder.
+
+(* "EVERY INTACT RECOVERY BLOCK STORED BESIDE THE INDEX FILE IS FOUND AND USED": for a recovery file at ANY path the
+   discovery pattern accepts (paths are byte strings: spaces, glob metacharacters, further directory levels),
+   holding a well-formed recovery packet of the set with exponent e, the loaded table has that block at e and the
+   usable-block count is the number of distinct exponents present. *)
+Theorem C06_intact_block_found_and_used : forall md5, (forall x, length (md5 x) = 16%nat) ->
+  forall ix fs d fis t (content : list N -> list apkt) p q e dd,
+  fst (load_front md5 ix (io_init fs [])) = Ok (d, fis, t) ->
+  (forall p', In p' (rec_listing ix fs) -> read_res fs p' = Ok (frames md5 (content p'))) ->
+  (forall p' q', In p' (rec_listing ix fs) -> In q' (content p') -> pkt_ok md5 d q') ->
+  recv_agree (d_setid d) (concat (map content (rec_listing ix fs))) ->
+  In p (map fst fs) -> rec_pattern ix p = true ->
+  In q (content p) -> pk_set q = d_setid d -> is_recv e dd q ->
+  exists ds st',
+    load_all md5 ix (io_init fs []) = (Ok ds, st') /\ ds_dec ds = d /\ ds_fis ds = fis /\
+    nth (N.to_nat e) (ds_parity ds) None = Some dd /\
+    (1 <= c_pusable (shard_counts ds))%nat /\
+    (forall es, NoDup es ->
+       (forall e', In e' es <-> exists dd', has_block (d_setid d) (map content (rec_listing ix fs)) e' dd') ->
+       c_pusable (shard_counts ds) = length es).
+Proof. exact intact_block_found_and_used. Qed.
+Print Assumptions C06_intact_block_found_and_used.
